@@ -14,7 +14,6 @@ This module runs the batches in parallel, and triages what is not a clean pass:
 """
 import os
 import subprocess
-import time
 
 from hypothesis import HealthCheck, Phase, given, settings
 from hypothesis import seed as hseed
@@ -213,6 +212,9 @@ def _triage_hang(prop, binary, b, case_text, what, res, tq_env, tq_ms):
     if hangs == 3:
         res.violations.append(core.Violation("quiescent-incomplete in the batch and in 3 of 3 solo replays: " + last, replay_text=case_text))
         return "violation"
+    det = res.coverage.setdefault("inconclusive_details", [])
+    if len(det) < 5:
+        det.append("watchdog fired in a batch, %d of 3 solo replays did: %s | case: %s" % (hangs, what[:300], case_text[:300].replace("\n", " / ")))
     return "not_reproduced_%d_of_3" % hangs
 
 
